@@ -762,9 +762,13 @@ func (m *Message) String() string {
 	return buf.String()
 }
 
-func (m *Message) Type() string                { return "proto.Message" }
-func (m *Message) Truth() starlark.Bool        { return true }
-func (m *Message) Freeze()                     { *m.frozen = true }
+func (m *Message) Type() string         { return "proto.Message" }
+func (m *Message) Truth() starlark.Bool { return true }
+func (m *Message) Freeze() {
+	if !*m.frozen { // (no write if already frozen: frozen values may be shared)
+		*m.frozen = true
+	}
+}
 func (m *Message) Hash() (h uint32, err error) { return uint32(uintptr(unsafe.Pointer(m))), nil } // identity hash
 
 // Attr returns the value of this message's field of the specified name.
@@ -1008,7 +1012,11 @@ func (rf *RepeatedField) checkMutable(verb string) error {
 	return nil
 }
 
-func (rf *RepeatedField) Freeze()               { *rf.frozen = true }
+func (rf *RepeatedField) Freeze() {
+	if !*rf.frozen { // (no write if already frozen: frozen values may be shared)
+		*rf.frozen = true
+	}
+}
 func (rf *RepeatedField) Hash() (uint32, error) { return 0, fmt.Errorf("unhashable: %s", rf.Type()) }
 func (rf *RepeatedField) Index(i int) starlark.Value {
 	return toStarlark1(rf.typ, rf.list.Get(i), rf.frozen)
@@ -1140,7 +1148,11 @@ func (mf *MapField) Get(k starlark.Value) (starlark.Value, bool, error) {
 	return toStarlark1(mf.typ.MapValue(), v, mf.frozen), true, nil
 }
 
-func (mf *MapField) Freeze()               { *mf.frozen = true }
+func (mf *MapField) Freeze() {
+	if !*mf.frozen { // (no write if already frozen: frozen values may be shared)
+		*mf.frozen = true
+	}
+}
 func (mf *MapField) Hash() (uint32, error) { return 0, fmt.Errorf("unhashable: %s", mf.Type()) }
 
 func (mf *MapField) Iterate() starlark.Iterator {
